@@ -1334,3 +1334,53 @@ def perm_files(files, r):
         r.shuffle(paras)
         out[q] = "\n\n".join(paras) + "\n"
     return out
+
+
+# ------------------------------------------------------------------------------------------------
+# a definition whose initialiser mentions an OUTER variable of the same name (`x := g(x)`): the value is
+# resolved before the new variable exists, so the mention is the outer one -- also when the initialiser
+# contains a function literal in argument position; and the same shapes with no outer variable (a use
+# inside the own initialiser: must be rejected)
+
+SELF_PRE = ("inc :: fn n: int -> int do\n    ret n + 1\nend\n\n"
+            "apply :: fn v: int, g: fn int -> int -> int do\n    ret g(v)\nend\n\n")
+
+SELF_INITS = [
+    ("call", "inc({x})"),
+    ("arith", "{x} + 1"),
+    ("lambda-arg", "apply({x}, fn n: int -> int do\n{i}    ret n + 1\n{i}end)"),
+    ("lambda-arg-mentions", "apply(1, fn n: int -> int do\n{i}    ret n + {x}\n{i}end)"),
+    ("arrow-lambda", "{x} -> apply(fn n: int -> int do\n{i}    ret n * 2\n{i}end)"),
+    ("nested-call-lambda", "inc(apply({x}, fn n: int -> int do\n{i}    ret n - 1\n{i}end))"),
+]
+
+SELF_CTX = [
+    ("block", "    do\n", "    end\n"),
+    ("if-branch", "    if true do\n", "    end\n"),
+    ("else-branch", "    if false do\n        print(0)\n    else do\n", "    end\n"),
+    ("loop", "    i := 0\n    loop i < 2 do\n        i += 1\n", "    end\n"),
+    ("closure", "    h :: fn do\n", "    end\n    h()\n"),
+]
+
+
+def self_shadow_program(ctx_i, init_i, inner, outer_kind, mutable):
+    """the program with the inner binder called `inner`; the outer variable is always `total`"""
+    cname, copen, cclose = SELF_CTX[ctx_i]
+    iname, init = SELF_INITS[init_i]
+    op = ":=" if mutable else "::"
+    body = (copen + "        %s %s %s\n" % (inner, op, init.format(x="total", i="        "))
+            + "        print(%s)\n" % inner + cclose + "    print(total)\n")
+    if outer_kind == "local":
+        return SELF_PRE + "start :: fn do\n    total := 10\n" + body + "end\n"
+    if outer_kind == "param":
+        return SELF_PRE + "run :: fn total: int do\n" + body + "end\n\nstart :: fn do\n    run(10)\nend\n"
+    return SELF_PRE + "total := 10\n\nstart :: fn do\n" + body + "end\n"       # global
+
+
+def self_use_program(ctx_i, init_i, mutable):
+    """no outer variable: `r := f(r)` uses r inside its own initialiser"""
+    cname, copen, cclose = SELF_CTX[ctx_i]
+    iname, init = SELF_INITS[init_i]
+    op = ":=" if mutable else "::"
+    return (SELF_PRE + "start :: fn do\n" + copen + "        r %s %s\n" % (op, init.format(x="r", i="        "))
+            + "        print(r)\n" + cclose + "end\n")
